@@ -188,6 +188,7 @@ def op_cases(draw, ops=None, dtypes=None, constraint=None, unsupported_rate=0.0,
     c["noncontig"] = draw(st.sampled_from([False, False, False, "transposed", "expanded"]))  # operand memory layout (same values)
     c["positional"] = draw(st.integers(0, 3)) == 0  # every argument of the library call passed positionally (signature order)
     c["up_layout"] = draw(st.sampled_from(["dense", "dense", "dense", "partial-reduction"]))  # memory layout of the upstream gradient
+    c["default_dtype"] = draw(st.sampled_from([None, None, None, None, "float64", "bfloat16"]))  # torch.set_default_dtype during the call
     c["history"] = draw(st.sampled_from([None, None, None, "other-constraint"]))  # an earlier call of the same op in this process
     c["frozen_role"] = draw(st.sampled_from([None, None, None, 0, 1, 2]))  # one operand (input / weight / bias ...) that does not require a gradient
     # the second data draw uses its own value profile: a scale that depends on magnitudes / sparsity is exposed
@@ -508,12 +509,17 @@ def probe(c: dict, want_bwd: bool = True, seeds: Optional[List[int]] = None, ups
         except Exception:  # noqa: BLE001  reference unsupported for this combination
             P.status = "ref_unsupported"
             return P
+        old_default = torch.get_default_dtype()
         try:
+            if c.get("default_dtype"):   # the process-wide default dtype during the library call must not matter
+                torch.set_default_dtype(getattr(torch, c["default_dtype"]))
             yu = bu.u(*tu)
         except Exception as e:  # noqa: BLE001
             from .runner import exc_bucket
             P.fwd_fails.append((exc_bucket(f"fwd.raises:{op}", e), f"{type(e).__name__}: {e}"))
             return P
+        finally:
+            torch.set_default_dtype(old_default)
         if not isinstance(yu, torch.Tensor):
             P.fwd_fails.append((f"fwd.type:{op}", f"returned {type(yu).__name__}"))
             return P
@@ -581,6 +587,16 @@ def probe(c: dict, want_bwd: bool = True, seeds: Optional[List[int]] = None, ups
                         g64 = _agrad(y64, t64, gup.to(D))
                     except Exception:  # noqa: BLE001
                         g64 = None
+                # cancellation guard (float64 cases have no noise estimate): the same reference gradient with |operands| and
+                # |upstream| - the size of the terms that were summed. A gradient that is < 1e-4 of that is rounding noise of the sum
+                # (integer weights adding up to zero under a constant upstream), nothing can be fitted to it.
+                gabs = None
+                if c["dtype"] == "float64":
+                    try:
+                        ta = [t.detach().abs().requires_grad_(t.requires_grad) for t in tr]
+                        gabs = _agrad((bsum if csum is not None else bu).r(*ta), ta, gup.abs())
+                    except Exception:  # noqa: BLE001
+                        gabs = None
                 for ri, (role, a, b_) in enumerate(zip(bu.roles, gu, gr)):
                     if (a is None) != (b_ is None):
                         P.bwd_fails.append((f"bwd.presence:{op}:{role}", f"library grad {'missing' if a is None else 'present'}, reference {'missing' if b_ is None else 'present'}"))
@@ -594,6 +610,9 @@ def probe(c: dict, want_bwd: bool = True, seeds: Optional[List[int]] = None, ups
                     if ff is None:
                         continue
                     if g64 is not None and g64[ri] is not None and noise(b_, g64[ri]) > tol[3] / 4:
+                        continue
+                    if gabs is not None and gabs[ri] is not None and gabs[ri].shape == b_.shape and \
+                            b_.detach().abs().max().item() < 1e-4 * gabs[ri].detach().abs().max().item():
                         continue
                     if op == "rms_norm" and role == "input":
                         # float32 denominator (by design): the library's error is ~1e-7 x |g| |w| / rms(x); when the
@@ -681,6 +700,8 @@ def class_labels(c: dict) -> List[str]:
         labs.append(f"constraint={c['constraint']}")
     if op == "sdpa":
         labs.append(f"sdpa:{c['mode']}")
+    if c.get("default_dtype"):
+        labs.append("default-dtype=" + c["default_dtype"])
     if c.get("frozen_role") is not None:
         labs.append("one-operand-without-grad")
     if c.get("history") and c.get("constraint", "default") != "default":
